@@ -85,6 +85,11 @@ func alphabet(level string) []string {
 	}
 	add("FE:A", "FE:B")
 	add("VZ:p", "VZ:c")
+	// the caller of the next message gives up at its k-th kernel round-trip point
+	add("CANCEL:2")
+	if level != "core" {
+		add("CANCEL:1", "CANCEL:3", "CANCEL:4")
+	}
 	if level != "core" {
 		add("VZ:p:pkh", "VZ:c:pkh")
 	}
